@@ -120,6 +120,23 @@ def run(ctx):
                             o.undecided(f"threshold {tm.show(t)} not comparable with {desc}", fn, cond)
 
     with ctx.obligation("C18.3", "one fresh draw per edge, over all edges of the copy") as o:
+        # wherever the draws are made (here or in a helper this function calls): a draw per ADJACENCY entry visits every
+        # undirected edge from both ends - two draws per edge, P(keep) = 1 - (1 - phi)^2
+        scope_fns = [fn] + [c_ for c_ in (rules.resolve_call(prog, fn, n_) for n_ in astx.walk_fn(fn.node) if isinstance(n_, ast.Call)) if c_ is not None and c_ is not fn]
+        for f_ in scope_fns:
+            par_ = astx.Parents(f_.node)
+            for n_ in ast.walk(f_.node):
+                if isinstance(n_, ast.Call) and prog.external(f_.module, n_.func) == "random.random":
+                    doms_ = [txt(l_.iter) for l_ in par_.loops_of(n_)] + [txt(g_.iter) for c_ in par_.comps_of(n_) for g_ in c_.generators]
+                    adj_ = [d_ for d_ in doms_ if ".adjacency()" in d_ or d_.endswith(".adj") or ".adj.items()" in d_ or ".neighbors(" in d_ or d_.endswith("._adj")]
+                    halved_ = any(isinstance(t_, ast.Compare) and len(t_.ops) == 1 and isinstance(t_.ops[0], (ast.Lt, ast.LtE, ast.Gt, ast.GtE)) and isinstance(t_.left, ast.Name)
+                                  and isinstance(t_.comparators[0], ast.Name) for t_, _p in rules.path_conditions(par_, n_)) or \
+                        any(isinstance(c2_, ast.Compare) and isinstance(c2_.left, ast.Name) and isinstance(c2_.comparators[0], ast.Name) for c_ in par_.comps_of(n_) for g_ in c_.generators for c2_ in g_.ifs)
+                    if adj_ and halved_:
+                        o.undecided(f"draws are made over `{adj_[0]}` under an ordering test of the end points: whether every edge is visited once is not recognised", f_, n_)
+                    elif adj_:
+                        o.violated(f_, n_, f"the uniform draw is made per entry of `{adj_[0]}`: an undirected edge appears there once from each end, so it gets TWO draws and is kept "
+                                           "with probability 1 - (1 - phi)^2, not phi", sure=True)
         if comp is None:
             o.undecided("removal comprehension not recognised", fn)
         else:
